@@ -1,7 +1,7 @@
 CONSTANTS
   Mutant = "none"
   MaxLen = 2
-  Family = "tables"
+  Family = "proto"
   Deep = FALSE
   Alpha = "full"
   Cases <- Tables
